@@ -41,7 +41,7 @@ from allmydata import hashtree
 from allmydata.util import hashutil
 from allmydata.mutable.servermap import ServermapUpdater, ServerMap
 from allmydata.interfaces import NotEnoughSharesError
-from allmydata.mutable.common import (MODE_CHECK, MODE_WRITE, UncoordinatedWriteError, NotEnoughServersError,
+from allmydata.mutable.common import (MODE_CHECK, MODE_WRITE, MODE_READ, UncoordinatedWriteError, NotEnoughServersError,
                                       UnrecoverableFileError)
 from allmydata.mutable.publish import MutableData
 from allmydata.monitor import Monitor
@@ -401,11 +401,22 @@ class Scen:
         dl, dl_detail = [], ""
         try:
             self.g.policy = "fifo"
-            st, data = w.run(w.fresh_node("ro").download_best_version())
+            # an independent reader that looks at every server (a MODE_READ survey may stop at the first k shares it meets,
+            # which is the subject of C11, not of the publisher)
+            rd = w.fresh_node("ro")
+            st, sm2 = w.run(rd.get_servermap(MODE_CHECK))
             if st == "ok":
-                dl = list(self.contents.get(bytes(data), [-1]))
+                # download_version() accepts a map only if it was last updated in MODE_READ: refresh the complete map in that mode
+                st, sm2 = w.run(ServermapUpdater(rd, self.g.broker, Monitor(), sm2, MODE_READ).update())
+            best = sm2.best_recoverable_version() if st == "ok" else None
+            if st == "ok" and best is not None:
+                st, data = w.run(rd.download_version(sm2, best))
+                if st == "ok":
+                    dl = list(self.contents.get(bytes(data), [-1]))
+                else:
+                    dl_detail = str(data)[:80]
             else:
-                dl_detail = str(data)[:80]
+                dl_detail = "no recoverable version" if st == "ok" else str(sm2)[:80]
         except Exception as ex:
             dl_detail = type(ex).__name__
         self.events.append({"ev": "After", "M": m["M"], "bad": m["bad"], "best": m["best"], "L": L, "cls": cls, "dl": dl,
@@ -516,7 +527,7 @@ def lay_out(sc, pattern):
                         w.put(s2, sh, v, how="moved")
 
 
-PATTERNS = ["front", "front", "missing", "missing", "dup", "stale", "stale", "newer", "comp", "bad", "bad", "beyond", "gaps",
+PATTERNS = ["front", "front", "missing", "missing", "dup", "stale", "stale", "newer", "newer", "comp", "bad", "bad", "beyond", "gaps",
             "random", "random", "random"]
 
 
@@ -556,7 +567,7 @@ def scenario(g, rng, idx, k, n, thorough):
     lay_out(sc, pattern)
     # upload permission (grid manager certificates)
     unperm = []
-    if rng.random() < 0.25:
+    if rng.random() < (0.5 if pattern == "missing" else 0.25):
         unperm = [s for s in w.order if rng.random() < 0.3]
         if len(unperm) == len(w.order) and rng.random() < 0.7:
             unperm = unperm[1:]
